@@ -1,9 +1,295 @@
+/-
+Property C11 — quantization and dequantization are identity maps for gradients, so for every
+unfrozen quantized module the gradients reaching its float weight, bias and input equal those of
+the float module evaluated with the dequantized weight and (de)quantized input, for any input
+rank; frozen weights receive no gradient; until frozen every forward re-quantizes from the current
+float weights, so an optimizer step is reflected by the next forward.
+
+Matrices are index functions `Nat → Nat → Rat` restricted to explicit sizes `N` (flattened batch
+rows), `K` (in_features), `O` (out_features).
+
+* T3 `C11_forward_linear_in_input`, `C11_forward_linear_in_weight`, `C11_forward_differential`:
+  the forward is linear in each operand; its increment is the differential used in T1 plus the
+  second-order term; `C11_bias_gradient_is_sum_over_rows`, `C11_batch_flattening`,
+  `C11_bias_gradient_any_rank`: the bias gradient sums over all leading dimensions;
+* T1 `C11_adjoint_input`, `C11_adjoint_weight`, `C11_adjoint_bias`, `C11_adjoint`: the three
+  tensors returned by `QTensorLinear.backward` are the adjoint of the differential of the float
+  linear, for every `N K O`;
+* T2 `C11_gradients_unique`: the adjoint identity determines the three gradients on the index
+  ranges, so "equal to the float backward" is a theorem, not a definition;
+* T4 `C11_ste`, `C11_module_gradients`, `C11_module_gradients_adjoint`: with straight-through
+  quantizers the gradients reaching `(x, W, b)` are the float gradients at the quantized operands;
+* T5 `C11_fresh_unfrozen`, `C11_fresh`, `C11_fresh_nth`, `C11_step_then_forward`: until frozen
+  every forward uses the quantization of the current float version; `C11_frozen_weight_static`,
+  `C11_freeze_stops_updates`: a frozen weight is never re-derived and ignores optimizer steps.
+-/
 import Quanto.Module
+import Quanto.Grad
+import Proofs.C11.Sums
+import Proofs.C11.History
 namespace Quanto
+
+/-! ### T3 — linearity of the forward, bias gradient over any rank -/
+
+/-- the forward is additive in the input (the bias is carried by one of the two summands) -/
+theorem C11_forward_linear_in_input (K : Nat) (x x' w : Nat → Nat → Rat) (b : Nat → Rat) (i j : Nat) :
+    linFwd K (fun i k => x i k + x' i k) w b i j
+      = linFwd K x w b i j + linFwd K x' w (fun _ => 0) i j := by
+  unfold linFwd
+  rw [sumTo_congr (g := fun k => x i k * w j k + x' i k * w j k) (fun k _ => by ring), sumTo_add]
+  ring
+
+/-- the forward is additive in the weight -/
+theorem C11_forward_linear_in_weight (K : Nat) (x w w' : Nat → Nat → Rat) (b : Nat → Rat) (i j : Nat) :
+    linFwd K x (fun j k => w j k + w' j k) b i j
+      = linFwd K x w b i j + linFwd K x w' (fun _ => 0) i j := by
+  unfold linFwd
+  rw [sumTo_congr (g := fun k => x i k * w j k + x i k * w' j k) (fun k _ => by ring), sumTo_add]
+  ring
+
+/-- the forward is homogeneous in the input and in the weight (bias-free part) -/
+theorem C11_forward_smul_input (K : Nat) (c : Rat) (x w : Nat → Nat → Rat) (i j : Nat) :
+    linFwd K (fun i k => c * x i k) w (fun _ => 0) i j = c * linFwd K x w (fun _ => 0) i j := by
+  unfold linFwd
+  rw [sumTo_congr (g := fun k => c * (x i k * w j k)) (fun k _ => by ring), sumTo_mul_left]
+  ring
+
+theorem C11_forward_smul_weight (K : Nat) (c : Rat) (x w : Nat → Nat → Rat) (i j : Nat) :
+    linFwd K x (fun j k => c * w j k) (fun _ => 0) i j = c * linFwd K x w (fun _ => 0) i j := by
+  unfold linFwd
+  rw [sumTo_congr (g := fun k => c * (x i k * w j k)) (fun k _ => by ring), sumTo_mul_left]
+  ring
+
+/-- the increment of the forward at `(x, w, b)` along `(dX, dW, db)` is the differential paired
+with `gO` in `C11_adjoint`, plus the second-order term `dX @ dWᵀ` -/
+theorem C11_forward_differential (K : Nat) (x w dX dW : Nat → Nat → Rat) (b db : Nat → Rat) (i j : Nat) :
+    linFwd K (fun i k => x i k + dX i k) (fun j k => w j k + dW j k) (fun j => b j + db j) i j
+      = linFwd K x w b i j
+        + (linFwd K dX w (fun _ => 0) i j + linFwd K x dW db i j)
+        + linFwd K dX dW (fun _ => 0) i j := by
+  unfold linFwd
+  rw [sumTo_congr
+    (g := fun k => (x i k * w j k + dX i k * w j k) + (x i k * dW j k + dX i k * dW j k))
+    (fun k _ => by ring), sumTo_add, sumTo_add, sumTo_add]
+  ring
+
+/-- `bias_gO = gO.sum(all dims but the last)` over the flattened batch -/
+theorem C11_bias_gradient_is_sum_over_rows (N : Nat) (gO : Nat → Nat → Rat) (j : Nat) :
+    gradBias N gO j = sumTo N (fun i => gO i j) := rfl
+
+/-- a batch of shape `[B1, B2]` flattened row-major (`i = b1 * B2 + b2`): the sum over the
+flattened rows is the sum over both leading dimensions -/
+theorem C11_batch_flattening (B1 B2 : Nat) (f : Nat → Rat) :
+    sumTo (B1 * B2) f = sumTo B1 (fun b1 => sumTo B2 (fun b2 => f (b1 * B2 + b2))) :=
+  sumTo_flatten B1 B2 f
+
+/-- three leading dimensions `[B1, B2, B3]`, `i = (b1 * B2 + b2) * B3 + b3` -/
+theorem C11_batch_flattening3 (B1 B2 B3 : Nat) (f : Nat → Rat) :
+    sumTo (B1 * B2 * B3) f
+      = sumTo B1 (fun b1 => sumTo B2 (fun b2 => sumTo B3 (fun b3 => f ((b1 * B2 + b2) * B3 + b3)))) := by
+  rw [sumTo_flatten (B1 * B2) B3, sumTo_flatten B1 B2]
+
+/-- the bias gradient of an input of shape `[B1, B2, in]` sums over both leading dimensions -/
+theorem C11_bias_gradient_any_rank (B1 B2 : Nat) (gO : Nat → Nat → Rat) (j : Nat) :
+    gradBias (B1 * B2) gO j = sumTo B1 (fun b1 => sumTo B2 (fun b2 => gO (b1 * B2 + b2) j)) := by
+  unfold gradBias
+  exact sumTo_flatten B1 B2 (fun i => gO i j)
+
+/-! ### T1 — the explicit backward is the adjoint of the forward -/
+
+/-- `⟨gO, dX @ wᵀ⟩ = ⟨gO @ w, dX⟩` -/
+theorem C11_adjoint_input (N K O : Nat) (gO w dX : Nat → Nat → Rat) :
+    inner2 N O gO (fun i j => linFwd K dX w (fun _ => 0) i j)
+      = inner2 N K (gradInput O gO w) dX := by
+  unfold inner2 linFwd gradInput
+  refine sumTo_congr (fun i _ => ?_)
+  have h1 : ∀ j, j < O →
+      gO i j * (sumTo K (fun k => dX i k * w j k) + 0)
+        = sumTo K (fun k => gO i j * w j k * dX i k) := by
+    intro j _
+    rw [add_zero, ← sumTo_mul_left]
+    exact sumTo_congr (fun k _ => by ring)
+  rw [sumTo_congr h1, sumTo_comm]
+  refine sumTo_congr (fun k _ => ?_)
+  rw [← sumTo_mul_right]
+
+/-- `⟨gO, x @ dWᵀ⟩ = ⟨gOᵀ @ x, dW⟩` -/
+theorem C11_adjoint_weight (N K O : Nat) (gO x dW : Nat → Nat → Rat) :
+    inner2 N O gO (fun i j => linFwd K x dW (fun _ => 0) i j)
+      = inner2 O K (gradWeight N gO x) dW := by
+  unfold inner2 linFwd gradWeight
+  have h1 : ∀ i, i < N → ∀ j, j < O →
+      gO i j * (sumTo K (fun k => x i k * dW j k) + 0)
+        = sumTo K (fun k => gO i j * x i k * dW j k) := by
+    intro i _ j _
+    rw [add_zero, ← sumTo_mul_left]
+    exact sumTo_congr (fun k _ => by ring)
+  rw [sumTo_congr (fun i hi => sumTo_congr (h1 i hi)), sumTo_comm]
+  refine sumTo_congr (fun j _ => ?_)
+  rw [sumTo_comm]
+  refine sumTo_congr (fun k _ => ?_)
+  rw [← sumTo_mul_right]
+
+/-- `⟨gO, 1 ⊗ db⟩ = ⟨Σ_rows gO, db⟩` -/
+theorem C11_adjoint_bias (N O : Nat) (gO : Nat → Nat → Rat) (db : Nat → Rat) :
+    inner2 N O gO (fun _ j => db j) = inner1 O (gradBias N gO) db := by
+  unfold inner2 inner1 gradBias
+  rw [sumTo_comm]
+  refine sumTo_congr (fun j _ => ?_)
+  rw [← sumTo_mul_right]
+
+/-- `⟨gO, d(forward)[dX, dW, db]⟩ = ⟨input_gO, dX⟩ + ⟨other_gO, dW⟩ + ⟨bias_gO, db⟩`: the three
+tensors returned by `QTensorLinear.backward` are exactly the gradients of the float linear at
+`(x, w, b)`, for every batch size `N` (any input rank after flattening) and feature sizes -/
+theorem C11_adjoint (N K O : Nat) (gO x w dX dW : Nat → Nat → Rat) (db : Nat → Rat) :
+    inner2 N O gO (fun i j => linFwd K dX w (fun _ => 0) i j + linFwd K x dW db i j)
+      = inner2 N K (gradInput O gO w) dX + inner2 O K (gradWeight N gO x) dW
+        + inner1 O (gradBias N gO) db := by
+  rw [← C11_adjoint_input, ← C11_adjoint_weight, ← C11_adjoint_bias]
+  unfold inner2
+  rw [← sumTo_add, ← sumTo_add]
+  refine sumTo_congr (fun i _ => ?_)
+  rw [← sumTo_add, ← sumTo_add]
+  refine sumTo_congr (fun j _ => ?_)
+  unfold linFwd
+  ring
+
+/-! ### T2 — uniqueness of the adjoint -/
+
+/-- any triple satisfying the adjoint identity for all perturbations coincides with the explicit
+backward on the index ranges -/
+theorem C11_gradients_unique (N K O : Nat) (gO x w gi gw : Nat → Nat → Rat) (gb : Nat → Rat)
+    (h : ∀ (dX dW : Nat → Nat → Rat) (db : Nat → Rat),
+      inner2 N O gO (fun i j => linFwd K dX w (fun _ => 0) i j + linFwd K x dW db i j)
+        = inner2 N K gi dX + inner2 O K gw dW + inner1 O gb db) :
+    (∀ i k, i < N → k < K → gi i k = gradInput O gO w i k)
+    ∧ (∀ j k, j < O → k < K → gw j k = gradWeight N gO x j k)
+    ∧ (∀ j, j < O → gb j = gradBias N gO j) := by
+  have h' : ∀ (dX dW : Nat → Nat → Rat) (db : Nat → Rat),
+      inner2 N K gi dX + inner2 O K gw dW + inner1 O gb db
+        = inner2 N K (gradInput O gO w) dX + inner2 O K (gradWeight N gO x) dW
+          + inner1 O (gradBias N gO) db :=
+    fun dX dW db => (h dX dW db).symm.trans (C11_adjoint N K O gO x w dX dW db)
+  refine ⟨?_, ?_, ?_⟩
+  · intro i0 k0 hi hk
+    have := h' (fun i k => if i = i0 ∧ k = k0 then 1 else 0) (fun _ _ => 0) (fun _ => 0)
+    simpa [inner2_indicator hi hk, inner2_zero_right, inner1_zero_right] using this
+  · intro j0 k0 hj hk
+    have := h' (fun _ _ => 0) (fun j k => if j = j0 ∧ k = k0 then 1 else 0) (fun _ => 0)
+    simpa [inner2_indicator hj hk, inner2_zero_right, inner1_zero_right] using this
+  · intro j0 hj
+    have := h' (fun _ _ => 0) (fun _ _ => 0) (fun j => if j = j0 then 1 else 0)
+    simpa [inner1_indicator hj, inner2_zero_right] using this
+
+/-! ### T4 — straight-through quantizers -/
+
+/-- the backward of every quantizer / dequantizer returns the upstream gradient unchanged -/
+theorem C11_ste (gO : Nat → Nat → Rat) : steBackward gO = gO := rfl
+
+/-- module graph `x ↦ Q_in ↦ linear(·, Q_w(W), b) ↦ Q_out`: `xq`, `wq` stand for the
+(de)quantized input and the dequantized quantized weight. The upstream gradient crosses the output
+quantizer, the explicit linear backward at `(xq, wq)`, then the input / weight quantizers; what
+reaches `(x, W, b)` is the float backward evaluated at the quantized operands -/
+theorem C11_module_gradients (N O : Nat) (gO xq wq : Nat → Nat → Rat) :
+    (let g := steBackward gO
+     (steBackward (gradInput O g wq), steBackward (gradWeight N g xq), gradBias N g))
+      = (gradInput O gO wq, gradWeight N gO xq, gradBias N gO) := rfl
+
+/-- bridge between T1 and the property: the gradients that reach `(x, W, b)` through the
+straight-through quantizers are the adjoint of the float linear's differential at `(xq, wq)` -/
+theorem C11_module_gradients_adjoint (N K O : Nat) (gO xq wq dX dW : Nat → Nat → Rat)
+    (db : Nat → Rat) :
+    inner2 N O gO (fun i j => linFwd K dX wq (fun _ => 0) i j + linFwd K xq dW db i j)
+      = inner2 N K (steBackward (gradInput O (steBackward gO) wq)) dX
+        + inner2 O K (steBackward (gradWeight N (steBackward gO) xq)) dW
+        + inner1 O (gradBias N (steBackward gO)) db :=
+  C11_adjoint N K O gO xq wq dX dW db
+
+/-! ### T5 — weight state machine -/
 
 /-- until frozen, the forward after an optimizer step uses the quantization of the new weights -/
 theorem C11_step_then_forward (v : Nat) :
     forwardVersions (.float v) [.forward, .optimizerStep, .forward] = [v, v + 1] := by
   simp [forwardVersions, WState.step, WState.qweightVersion]
+
+/-- on a history without `freeze`, every forward uses the quantization of the current float
+version (`expectedVersions`: forward ↦ emit `v`, optimizerStep ↦ `v + 1`, others ↦ unchanged) -/
+theorem C11_fresh_unfrozen (v : Nat) (evs : List LifeEvent) (h : ∀ e ∈ evs, e ≠ .freeze) :
+    forwardVersions (.float v) evs = expectedVersions v evs := by
+  induction evs generalizing v with
+  | nil => rfl
+  | cons e es ih =>
+    have hes : ∀ e ∈ es, e ≠ .freeze := fun e he => h e (List.mem_cons_of_mem _ he)
+    have he : e ≠ .freeze := h e List.mem_cons_self
+    cases e with
+    | freeze => exact absurd rfl he
+    | forward => simp [forwardVersions, expectedVersions, WState.qweightVersion, ih v hes]
+    | optimizerStep => simp [forwardVersions, expectedVersions, WState.step, ih (v + 1) hes]
+    | deepcopy => simp [forwardVersions, expectedVersions, WState.step, ih v hes]
+    | toDevice => simp [forwardVersions, expectedVersions, WState.step, ih v hes]
+
+/-- histories of optimizer steps and forwards on an unfrozen module -/
+theorem C11_fresh (v : Nat) (evs : List LifeEvent)
+    (h : ∀ e ∈ evs, e = .forward ∨ e = .optimizerStep) :
+    forwardVersions (.float v) evs = expectedVersions v evs :=
+  C11_fresh_unfrozen v evs (fun e he => by rcases h e he with h | h <;> simp [h])
+
+/-- definition-free form: a forward that follows a freeze-free prefix `pre` uses the version
+`v + (number of optimizer steps in pre)` -/
+theorem C11_fresh_nth (v : Nat) (pre post : List LifeEvent) (h : ∀ e ∈ pre, e ≠ .freeze) :
+    forwardVersions (.float v) (pre ++ .forward :: post)
+      = forwardVersions (.float v) pre
+        ++ (v + pre.count .optimizerStep)
+          :: forwardVersions (.float (v + pre.count .optimizerStep)) post := by
+  rw [forwardVersions_append_float v pre _ h]
+  simp [forwardVersions, WState.qweightVersion]
+
+/-- a frozen weight is never re-derived: every forward uses the version it was frozen from,
+whatever happens in between (optimizer steps included) -/
+theorem C11_frozen_weight_static (v : Nat) (evs : List LifeEvent) :
+    forwardVersions (.frozen v) evs = List.replicate (evs.count .forward) v := by
+  induction evs with
+  | nil => rfl
+  | cons e es ih =>
+    cases e <;>
+      simp [forwardVersions, step_frozen, WState.qweightVersion, ih, List.replicate_succ]
+
+/-- an optimizer step never changes a frozen state -/
+theorem C11_frozen_ignores_step (v : Nat) :
+    (WState.frozen v).step .optimizerStep = .frozen v := rfl
+
+/-- after `freeze` the module stops following the optimizer -/
+theorem C11_freeze_stops_updates (v : Nat) (evs : List LifeEvent) :
+    forwardVersions (.float v) (.freeze :: evs) = List.replicate (evs.count .forward) v := by
+  simpa [forwardVersions, WState.step, WState.freeze] using C11_frozen_weight_static v evs
+
+/-! ### non-vacuity -/
+
+/-- T1 on concrete `2 × 3`, `2 × 3`, `2 × 2` matrices: both sides evaluate to the same non-zero
+number -/
+example :
+    inner2 2 2 (fun i j => (i : Rat) + 2 * j + 1)
+        (fun i j => linFwd 3 (fun i k => (i : Rat) - k) (fun j k => (j : Rat) * k + 1) (fun _ => 0) i j
+          + linFwd 3 (fun i k => (i : Rat) * k + 1) (fun j k => (j : Rat) + k) (fun j => (j : Rat) + 1) i j)
+      = 75
+    ∧ inner2 2 3 (gradInput 2 (fun i j => (i : Rat) + 2 * j + 1) (fun j k => (j : Rat) * k + 1))
+          (fun i k => (i : Rat) - k)
+        + inner2 2 3 (gradWeight 2 (fun i j => (i : Rat) + 2 * j + 1) (fun i k => (i : Rat) * k + 1))
+          (fun j k => (j : Rat) + k)
+        + inner1 2 (gradBias 2 (fun i j => (i : Rat) + 2 * j + 1)) (fun j => (j : Rat) + 1)
+      = 75 := by
+  constructor <;>
+    norm_num [inner2, inner1, linFwd, gradInput, gradWeight, gradBias, sumTo_succ, sumTo_zero]
+
+example : forwardVersions (.float 3) [.forward, .optimizerStep, .optimizerStep, .forward] = [3, 5] := by
+  rw [C11_fresh _ _ (by decide)]; rfl
+
+example : expectedVersions 3 [.forward, .optimizerStep, .optimizerStep, .forward] = [3, 5] := rfl
+
+example : forwardVersions (.float 3) [.forward, .optimizerStep, .freeze, .optimizerStep, .forward]
+    = [3, 4] := by decide
+
+example : forwardVersions (.frozen 7) [.forward, .optimizerStep, .forward] = [7, 7] :=
+  C11_frozen_weight_static 7 _
 
 end Quanto
